@@ -205,7 +205,7 @@ def run_wb(sc):
         mem = ScriptMem(port, sc["mem_script"]["ready"], sc["mem_script"]["lat"], initword_fn(nbp))
     else:
         mem = IdealMem([port], seed=sc["seed"], lat=tuple(sc.get("lat", (3, 12))), stall=sc.get("stall", 0.3),
-                       init=initword_fn(nbp))
+                       init=initword_fn(nbp), eager=bool(sc.get("eager")), wready=sc.get("wready", 0.7))
     ops = wb_plan(sc)
     bound = sc.get("bound", 1500)
     rnd = random.Random(sc["seed"] * 31 + 5)
@@ -446,7 +446,7 @@ def run_avl(sc):
     av, port = top.avl, top.port
     nba, nbp = sc["avw"] // 8, sc["pw"] // 8
     mem = IdealMem([port], seed=sc["seed"], lat=tuple(sc.get("lat", (3, 12))), stall=sc.get("stall", 0.3),
-                   init=initword_fn(nbp))
+                   init=initword_fn(nbp), eager=bool(sc.get("eager")), wready=sc.get("wready", 0.7))
     ops = avl_plan(sc)
     bound = sc.get("bound", 1500)
     rnd = random.Random(sc["seed"] * 31 + 7)
